@@ -662,11 +662,11 @@ def rule_r5(repo):
 
 
 def run(repo, check):
-    check.add(rule_r1(repo))
-    check.add(rule_r2(repo))
-    check.add(rule_r4(repo))
-    check.add(rule_r5(repo))
-    check.add(rule_r6(repo, check.tier))
+    check.run_rule(rule_r1, repo)
+    check.run_rule(rule_r2, repo)
+    check.run_rule(rule_r4, repo)
+    check.run_rule(rule_r5, repo)
+    check.run_rule(rule_r6, repo, check.tier)
     check.assumptions = ['the differential compares abstract emission traces (primitive, descriptor, resolved width/scale/reference, links, bitmap '
                          'bookkeeping) over a finite family of templates: curated templates plus all ordered pairs (thorough: triples) of member symbols',
                          'equality of results on real data follows only together with C01/C02 (what each primitive does with its arguments)']
